@@ -11,6 +11,7 @@ package otter
 // notifications and the contents.
 
 import (
+	"strings"
 	"bufio"
 	"encoding/json"
 	"os"
@@ -113,6 +114,9 @@ func runDrainScenario(sc drainScenario, keepLog bool) drainResult {
 		})
 	}
 	diag := s.Run()
+	if diag != "" && diag != "step limit" && !strings.HasPrefix(diag, "panic") && s.WaitDone(5*time.Second) {
+		diag = ""
+	}
 	// let goroutines released at the end of Run drain away; no cache call is made from here on
 	deadline := time.Now().Add(300 * time.Millisecond)
 	for time.Now().Before(deadline) {
@@ -170,5 +174,8 @@ func TestVerifDrain(t *testing.T) {
 	for i, sc := range scs {
 		r := runDrainScenario(sc, keep && i < 3)
 		_ = enc.Encode(r)
+		if strings.HasPrefix(r.Diag, "panic") || strings.HasPrefix(r.Diag, "hang") {
+			break
+		}
 	}
 }
